@@ -563,7 +563,8 @@ func specDecodedPrefix(want string, v string) bool {
 		if c >= 'a' && c <= 'z' {
 			c -= 0x20
 		}
-		if c != int(want[k]) {
+		// the decoded value is compared as a byte, as upstream does ((char) cb): a code point above 0xFF is truncated
+		if byte(c) != want[k] {
 			return false
 		}
 		k++
